@@ -49,6 +49,12 @@ def tasks(tier, seed):
                 for tau in (False, True):
                     for n in ((1, 2) if kind in ('generic_implicit', 'imex_1st_order') and M <= 3 else (1,)):
                         T.append(('defect', kind, M, rt, tau, n))
+    # other node families: a node on the left end (its row of Q is zero, its defect is u0 - u1), no node on either end
+    for kind in ['generic_implicit', 'imex_1st_order', 'explicit', 'multi_implicit', 'imex_1st_order_mass']:
+        for quad in ('LOBATTO', 'RADAU-LEFT', 'GAUSS'):
+            for M in ([2, 3] if quick else [2, 3, 4]):
+                for rt in (RES_TYPES if kind in ('generic_implicit', 'imex_1st_order') or not quick else RES_TYPES[:2]):
+                    T.append(('defect', kind, M, rt, quad == 'LOBATTO', 1, quad))
     T.append(('stoprule',))
     from harness import c07
 
@@ -94,20 +100,22 @@ def znorm(rows):
     return zmax([zabs(x) for row in rows for x in row])
 
 
-def defect_case(rep, kind, M, rt, with_tau, n):
-    name = f'defect/{kind}/M{M}/{rt}/tau{int(with_tau)}/n{n}'
+def defect_case(rep, kind, M, rt, with_tau, n, quad='RADAU-RIGHT'):
+    name = f'defect/{kind}/M{M}/{rt}/tau{int(with_tau)}/n{n}' + ('' if quad == 'RADAU-RIGHT' else f'/{quad}')
     coef = c02.sym_coefs(kind, n)
     mass = [SymReal(z3.Real('mass_0'))] if kind == 'imex_1st_order_mass' else None
     dtv = z3.Real('dt')
     qd = {'generic_implicit': ('LU',), 'explicit': ('EE',), 'imex_1st_order': ('LU', 'EE'), 'imex_1st_order_mass': ('LU', 'EE'),
           'multi_implicit': ('LU', 'IE')}[kind]
+    if quad != 'RADAU-RIGHT':  # (LU is not defined for every node set with a left end node)
+        qd = tuple('IE' if q == 'LU' else q for q in qd)
 
     def build(dt, coef_, mass_, float_mode=False, env=None):
         if float_mode:
             pc, pp = c02.float_problem_for(kind, coef_, mass_)
         else:
             pc, pp = c02.problem_for(kind, coef_, mass_)
-        L = cm.make_level(pc, pp, c02.SWEEPERS[kind], c02.sweeper_params(kind, M, 'LEGENDRE', 'RADAU-RIGHT', qd, False), dt, residual_type=rt)
+        L = cm.make_level(pc, pp, c02.SWEEPERS[kind], c02.sweeper_params(kind, M, 'LEGENDRE', quad, qd, False), dt, residual_type=rt)
         return L
 
     def fn(c):
@@ -166,7 +174,7 @@ def defect_case(rep, kind, M, rt, with_tau, n):
         allv = cm.all_vars(V) + [dtv] + [x.t for v in coef.values() for row in v for x in row] + ([mass[0].t] if mass else [])
         if res == 'sat':
             env = cm.model_env(model, allv)
-            defect_triage(rep, kind, M, rt, with_tau, n, qd, env, name)
+            defect_triage(rep, kind, M, rt, with_tau, n, qd, env, name, quad)
         if with_tau and n == 1:
             # sensitivity: a specification without tau on the last node must be refuted
             d2 = ss.spec_defect(kind, r['Q'], zc, dtv, V['u0'], V['U'], V['tau'][:-1] + [[z3.RealVal(0)] * n], mass)
@@ -181,7 +189,7 @@ def defect_case(rep, kind, M, rt, with_tau, n):
         if mass:
             env['mass_0'] = rng.uniform(0.5, 2)
         try:
-            obs, exp = defect_float(kind, M, rt, with_tau, n, qd, env)
+            obs, exp = defect_float(kind, M, rt, with_tau, n, qd, env, quad)
             got = evalf(r['res'], env)
             rep.translator += 1
             if not cm.rel_close(got, obs, 1e-7):
@@ -191,12 +199,12 @@ def defect_case(rep, kind, M, rt, with_tau, n):
     rep.sample({'case': name, 'free_variables': 'u0, U, tau, dt, coefficients'}, limit=4)
 
 
-def defect_float(kind, M, rt, with_tau, n, qd, env):
+def defect_float(kind, M, rt, with_tau, n, qd, env, quad='RADAU-RIGHT'):
     """real float compute_residual vs numpy defect norm"""
     coefF = {nm: np.array([[env[f'{nm}_{i}{j}'] for j in range(n)] for i in range(n)]) for nm in c02.COEF_NAMES[kind]}
     mass = [env['mass_0']] if kind == 'imex_1st_order_mass' else None
     pc, pp = c02.float_problem_for(kind, coefF, mass)
-    L = cm.make_level(pc, pp, c02.SWEEPERS[kind], c02.sweeper_params(kind, M, 'LEGENDRE', 'RADAU-RIGHT', qd, False), env['dt'], residual_type=rt)
+    L = cm.make_level(pc, pp, c02.SWEEPERS[kind], c02.sweeper_params(kind, M, 'LEGENDRE', quad, qd, False), env['dt'], residual_type=rt)
     P = L.prob
     u0 = np.array([env[f'u0_{i}'] for i in range(n)])
     U = np.array([[env[f'U{m}_{i}'] for i in range(n)] for m in range(1, M + 1)])
@@ -223,17 +231,17 @@ def defect_float(kind, M, rt, with_tau, n, qd, env):
     return obs, float(nd)
 
 
-def defect_triage(rep, kind, M, rt, with_tau, n, qd, env, name):
+def defect_triage(rep, kind, M, rt, with_tau, n, qd, env, name, quad='RADAU-RIGHT'):
     rep.replayed += 1
     try:
-        obs, exp = defect_float(kind, M, rt, with_tau, n, qd, env)
+        obs, exp = defect_float(kind, M, rt, with_tau, n, qd, env, quad)
     except Exception as e:
         rep.unreproduced(name, f'{type(e).__name__}: {e}')
         return
     if abs(obs - exp) > 1e-8 * (1 + abs(exp)):
         clause = 'residual-type-ignored' if kind == 'imex_1st_order_mass' and rt != 'full_abs' else 'residual-is-defect'
         rep.violation(f'{PID}/{kind}/{clause}', f'{name}: reported residual {obs:.6e} but the {rt} norm of the defect is {exp:.6e}',
-                      {'task': ['defect', kind, M, rt, with_tau, n], 'qd': list(qd), 'env': env, 'observed': obs, 'expected': exp})
+                      {'task': ['defect', kind, M, rt, with_tau, n, quad], 'qd': list(qd), 'env': env, 'observed': obs, 'expected': exp})
     else:
         rep.unreproduced(name, {'env': env, 'observed': obs, 'expected': exp})
 
@@ -308,7 +316,7 @@ def replay(path):
     t = d['task']
     c02._load()
     if t[0] == 'defect':
-        obs, exp = defect_float(t[1], t[2], t[3], t[4], t[5], tuple(d['qd']), d['env'])
+        obs, exp = defect_float(t[1], t[2], t[3], t[4], t[5], tuple(d['qd']), d['env'], t[6] if len(t) > 6 else 'RADAU-RIGHT')
         print('observed', obs, 'expected', exp)
         bad = abs(obs - exp) > 1e-8 * (1 + abs(exp))
     elif isinstance(t[0], int) or t[0] is None or len(t) == 8:
